@@ -1668,10 +1668,24 @@ func vc03Evaluate(t *rapid.T, st *vstat.Stats, c *vc03Case, r agd.DeviceResult) 
 			direction = "device creation differs"
 		}
 
-		t.Fatalf(
-			"C03 decision table mismatch (%s)\ngot: %s (devices created: %d)\nacceptable: %v\ncase: %s",
-			direction, g, len(c.World.created), vs, c,
-		)
+		// The statement is an "only if": recognising a request the table does
+		// not allow, or as another device, breaks it.  So does failing to serve
+		// a wrong-password request as anonymous (its last sentence).  The other
+		// deviations from the table (a request the table would recognise is
+		// refused, or refused in another way) contradict documented behaviour
+		// but not the property; they are counted, not reported.
+		fatal := direction == "over-recognition" || direction == "recognised as a different device" ||
+			(primary.Kind == vc03AuthFail && (g.Kind == vc03Error || g.Kind == vc03UnknownDedicated))
+		if fatal {
+			t.Fatalf(
+				"C03 decision table mismatch (%s)\ngot: %s (devices created: %d)\nacceptable: %v\ncase: %s",
+				direction, g, len(c.World.created), vs, c,
+			)
+		}
+
+		st.Class("table-deviation-tolerated:" + direction)
+
+		return primary, g
 	}
 
 	vc03Record(st, c, vs, matched, g)
